@@ -154,6 +154,23 @@ func sendmailScript(dir string) (script, spool string, err error) {
 	return sendmailPath, sendmailPath + ".out", sendmailErr
 }
 
+// SendmailRender hands the message to the stand-in sendmail binary (WriteToSendmailWithContext) and returns what the binary read.
+func SendmailRender(m *mail.Msg, dir string) ([]byte, error) {
+	script, spool, err := sendmailScript(dir)
+	if err != nil {
+		return nil, err
+	}
+	sendmailMu.Lock()
+	defer sendmailMu.Unlock()
+	_ = os.Remove(spool)
+	ctx, cancel := context.WithTimeout(context.Background(), 2*time.Minute)
+	defer cancel()
+	if err := m.WriteToSendmailWithContext(ctx, script); err != nil {
+		return nil, err
+	}
+	return os.ReadFile(spool)
+}
+
 var errProducer = errors.New("scripted producer failure")
 
 // calls of the base64 line breaker (build-tag hook of package mail), recorded per goroutine
